@@ -4,9 +4,9 @@
      B1  arena_ok gives bwd and collectability outright; it gives fwd / wf_arena / wf_arenab exactly
          when the tombstones carry no links ([tombs_clean]; arena_ok says nothing about an Empty
          slot: [arena_ok_not_wf_refuted]); the builder and delete_branch keep tombstones clean;
-     B2  every update / import step on plain blocks satisfies IndexHistory.covers (walk of /repo);
-     B3  C04_index_no_history_plain: no coverage / well-formedness premise left;
-     B4  at every state reached by an import of distinct plain notes and any plain history:
+     B2  every update / import step satisfies IndexHistory.covers (walk of /repo);
+     B3  C04_index_no_history_reached: no coverage / well-formedness / input-class premise left;
+     B4  at every state reached by an import of notes with distinct keys and ANY history:
          the hypotheses of C05_index_exact, of C18_sound / _finite / _complete_listed (and
          graph_to_paths returns), of C17_equation / C17_terminates hold. *)
 From Coq Require Import Lia List Permutation.
@@ -253,18 +253,18 @@ Proof.
   - injection Hn as <-. auto.
 Qed.
 
-(* Graph::update_key on a graph of the invariant, plain blocks: returns, keeps graph_inv and clean
+(* Graph::update_key on a graph of the invariant, any blocks: returns, keeps graph_inv and clean
    tombstones, roots the key at the first fresh id, and every new slot hangs below that root *)
 Lemma update_key_step g key meta bs :
-  graph_inv g -> tombs_clean (gr_arena g) -> plain bs ->
+  graph_inv g -> tombs_clean (gr_arena g) ->
   exists g', update_key g key meta bs = Ok g' /\ graph_inv g' /\ tombs_clean (gr_arena g') /\
     alookup key (gr_keys g') = Some (length (gr_arena g)) /\
     length (gr_arena g) < length (gr_arena g') /\
     (forall x, length (gr_arena g) <= x < length (gr_arena g') ->
                below (gr_arena g') (length (gr_arena g)) x).
 Proof.
-  intros Hinv Ht Hp.
-  destruct (HistoryWF.update_key_inv BuilderWF.build_document_wf g key meta bs Hinv Hp) as (g' & H & Hinv').
+  intros Hinv Ht.
+  destruct (HistoryWF.update_key_inv BuilderWF.build_document_wf g key meta bs Hinv) as (g' & H & Hinv').
   exists g'. split; [exact H|]. split; [exact Hinv'|].
   destruct (update_key_evolves _ _ _ _ _ H) as (_ & Hlt & Hk).
   pose proof H as H0. unfold update_key in H0. apply IndexHistory.bind_ok in H0 as (a1 & Hdel & H0).
@@ -278,25 +278,25 @@ Proof.
       split; [exact Hlen|]. apply delete_branch_frame in Hdel. eapply tombs_frame; eauto.
     - injection Hdel as <-. destruct (ready_fresh g key Hinv Hl) as (Hok & _). auto. }
   destruct H1 as (Hok1 & Hlen1 & Ht1). rewrite <- Hlen1 in *.
-  destruct (BuilderWF.build_document_wf a1 key bs Hok1 Hp)
+  destruct (BuilderWF.build_document_wf a1 key bs Hok1)
     as (st' & Hb' & O & Hfirst & (rn & Hr & Hrk & _ & _) & Hnew).
   rewrite Hb in Hb'. injection Hb' as <-.
   split; [|split; [exact Hk | split; [exact Hlt|]]].
   - intros i n Hn He.
     destruct (built_slots a1 st key Hfirst (ex_intro _ rn (conj Hr Hrk)) Hnew i n Hn) as [E|E]; [|congruence].
     eapply Ht1; eauto.
-  - destruct (BuilderWF.build_document_owned a1 key bs Hok1 Hp) as (st' & Hb' & _ & Perm).
+  - destruct (BuilderWF.build_document_owned a1 key bs Hok1) as (st' & Hb' & _ & Perm).
     rewrite Hb in Hb'. injection Hb' as <-.
     intros x Hx. apply (subtree_below _ (S (length (b_arena st)))).
     eapply Permutation_in; [apply Permutation_sym; exact Perm|]. apply in_seq. lia.
 Qed.
 
-(* B2: the update step of a plain note satisfies IndexHistory.covers, for the walk /repo runs *)
-Theorem covers_plain g key meta bs g' :
-  graph_inv g -> tombs_clean (gr_arena g) -> plain bs -> update_key g key meta bs = Ok g' ->
+(* B2: every update step satisfies IndexHistory.covers, for the walk /repo runs *)
+Theorem covers_update g key meta bs g' :
+  graph_inv g -> tombs_clean (gr_arena g) -> update_key g key meta bs = Ok g' ->
   covers true (gr_arena g) (gr_arena g').
 Proof.
-  intros Hinv Ht Hp H. destruct (update_key_step g key meta bs Hinv Ht Hp) as (g2 & H2 & [Hwf _] & Ht' & _ & _ & B).
+  intros Hinv Ht H. destruct (update_key_step g key meta bs Hinv Ht) as (g2 & H2 & [Hwf _] & Ht' & _ & _ & B).
   rewrite H in H2. injection H2 as <-. apply wf_b_spec in Hwf as (Hok' & _).
   apply covers_of_wf; [now apply arena_ok_wf_arena | now left |].
   intros x Hx A. apply B. split; [exact Hx | now apply alive_lt].
@@ -308,13 +308,13 @@ Definition Inv (s : gstate) : Prop :=
 
 (* Index.update_state_v: returns, keeps the invariant; its graph component IS Library.update_key *)
 Theorem update_state_step s key meta bs :
-  Inv s -> plain bs ->
+  Inv s ->
   exists s', update_state_v true s key meta bs = Ok s' /\ Inv s' /\
              update_key (gs_graph s) key meta bs = Ok (gs_graph s') /\
              covers true (arena_of s) (arena_of s').
 Proof.
-  intros (Hinv & Ht & Hidx) Hp. unfold arena_of in *.
-  destruct (update_key_step (gs_graph s) key meta bs Hinv Ht Hp) as (g' & H & Hinv' & Ht' & Hk & Hlt & B).
+  intros (Hinv & Ht & Hidx). unfold arena_of in *.
+  destruct (update_key_step (gs_graph s) key meta bs Hinv Ht) as (g' & H & Hinv' & Ht' & Hk & Hlt & B).
   pose proof Hinv' as [Hwf' _]. apply wf_b_spec in Hwf' as (Hok' & _).
   destruct (index_from_terminates true (gr_arena g') (length (gr_arena (gs_graph s)))
               (arena_ok_fwd _ Hok' Ht') Hlt) as (fresh & Hf).
@@ -323,7 +323,7 @@ Proof.
               Ok (GS g' ri' (gs_lines s ++ key_map g' key))).
   { unfold update_state_v. rewrite H. cbn [bind]. rewrite Hri. reflexivity. }
   eexists. split; [exact E|].
-  assert (C : covers true (gr_arena (gs_graph s)) (gr_arena g')) by (eapply covers_plain; eauto).
+  assert (C : covers true (gr_arena (gs_graph s)) (gr_arena g')) by (eapply covers_update; eauto).
   split; [|split; [exact H | exact C]].
   split; [exact Hinv'|]. split; [exact Ht'|].
   eapply index_history_invariant; [exact Hidx | exact E | exact C].
@@ -332,12 +332,12 @@ Qed.
 (* ---------- import -------------------------------------------------------------------------------- *)
 
 Lemma build_note_live g key meta bs g' :
-  arena_ok (gr_arena g) = true /\ all_live (gr_arena g) -> plain bs -> build_note g key meta bs = Ok g' ->
+  arena_ok (gr_arena g) = true /\ all_live (gr_arena g) -> build_note g key meta bs = Ok g' ->
   arena_ok (gr_arena g') = true /\ all_live (gr_arena g').
 Proof.
-  intros [Hok Hl] Hp H. unfold build_note in H. apply IndexHistory.bind_ok in H as (st & Hb & E). injection E as <-.
+  intros [Hok Hl] H. unfold build_note in H. apply IndexHistory.bind_ok in H as (st & Hb & E). injection E as <-.
   cbn [gr_arena].
-  destruct (BuilderWF.build_document_wf (gr_arena g) key bs Hok Hp)
+  destruct (BuilderWF.build_document_wf (gr_arena g) key bs Hok)
     as (st' & Hb' & O & Hfirst & (rn & Hr & Hrk & _ & _) & Hnew).
   rewrite Hb in Hb'. injection Hb' as <-. split; [exact O|].
   intros i n Hn.
@@ -348,18 +348,16 @@ Qed.
 Lemma all_live_tombs a : all_live a -> tombs_clean a.
 Proof. intros L i n Hn He. rewrite (L i n Hn) in He. discriminate. Qed.
 
-Definition plain_notes (notes : list (string * option string * list dblock)) : Prop :=
-  Forall (fun n => plain (snd n)) notes.
 Definition distinct_keys (notes : list (string * option string * list dblock)) : Prop :=
   NoDup (map HistoryWF.note_key notes).
 
-(* Index.import_state_v on notes with pairwise distinct keys and plain blocks: returns, establishes
+(* Index.import_state_v on notes with pairwise distinct keys: returns, establishes
    the invariant; its graph component IS Library.import *)
 Theorem import_state_step notes :
-  plain_notes notes -> distinct_keys notes ->
+  distinct_keys notes ->
   exists s, import_state_v true notes = Ok s /\ Inv s /\ import notes = Ok (gs_graph s).
 Proof.
-  intros Hp Hnd. destruct (import_wf_closed notes Hp Hnd) as (g & Hg & Hwf & Hkd).
+  intros Hnd. destruct (import_wf_closed notes Hnd) as (g & Hg & Hwf & Hkd).
   assert (HL : arena_ok (gr_arena g) = true /\ all_live (gr_arena g)).
   { pose proof Hg as H0. unfold import in H0. apply IndexHistory.bind_ok in H0 as (g1 & Hfold & E). injection E as <-.
     destruct (refresh_all_arena_keys (gr_keys g1) g1) as [-> _].
@@ -367,8 +365,7 @@ Proof.
               (fun g (n : string * option string * list dblock) =>
                  let '(name, meta, bs) := n in build_note g (key_from_file_name name) meta bs)
               (fun g => arena_ok (gr_arena g) = true /\ all_live (gr_arena g)) notes _ empty_graph g1 _ Hfold).
-    - intros [[name meta] bs] s0 s1 Hin Hs Hb. eapply build_note_live; [exact Hs | | exact Hb].
-      exact (proj1 (Forall_forall _ _) Hp _ Hin).
+    - intros [[name meta] bs] s0 s1 Hin Hs Hb. eapply build_note_live; [exact Hs | exact Hb].
     - split; [reflexivity|]. intros i n Hn. destruct i; discriminate. }
   destruct HL as [Hok Hl].
   assert (Ht : tombs_clean (gr_arena g)) by (now apply all_live_tombs).
@@ -384,18 +381,16 @@ Qed.
 (* B3 — whole histories                                                                              *)
 (* ================================================================================================ *)
 
-Definition plain_ops (ops : list op) : Prop := Forall (fun o : op => plain (snd o)) ops.
-
-(* every plain history from a state of the invariant: no step panics, the invariant holds at the
+(* EVERY history from a state of the invariant: no step panics, the invariant holds at the
    end, the graph component is the Library-level history, the coverage premise of IndexHistory holds *)
-Theorem run_updates_total ops : plain_ops ops -> forall s, Inv s ->
+Theorem run_updates_total ops : forall s, Inv s ->
   exists s', run_updates true s ops = Ok s' /\ Inv s' /\
              fold_left hist_step ops (Ok (gs_graph s)) = Ok (gs_graph s') /\
              covered_run true s ops.
 Proof.
-  induction 1 as [|[[key meta] bs] ops Hop _ IH]; intros s HI.
+  induction ops as [|[[key meta] bs] ops IH]; intros s HI.
   - exists s. split; [reflexivity|]. split; [exact HI|]. split; [reflexivity | exact I].
-  - cbn [snd] in Hop. destruct (update_state_step s key meta bs HI Hop) as (s1 & H1 & HI1 & Hg1 & C1).
+  - destruct (update_state_step s key meta bs HI) as (s1 & H1 & HI1 & Hg1 & C1).
     destruct (IH s1 HI1) as (s' & H' & HI' & Hg' & C').
     exists s'. cbn [run_updates fold_left hist_step bind]. rewrite H1, Hg1. cbn [bind].
     split; [exact H'|]. split; [exact HI'|]. split; [exact Hg'|].
@@ -406,51 +401,51 @@ Qed.
 Definition reached (notes : list (string * option string * list dblock)) (ops : list op) (s : gstate) : Prop :=
   exists s0, import_state_v true notes = Ok s0 /\ run_updates true s0 ops = Ok s.
 
-(* import of distinct plain notes, then ANY plain history: the run succeeds (no Panic at any step),
+(* import of notes with distinct keys, then ANY history: the run succeeds (no Panic at any step),
    and the state it ends in satisfies the invariant *)
 Theorem reachable_total notes ops :
-  plain_notes notes -> distinct_keys notes -> plain_ops ops ->
+  distinct_keys notes ->
   exists s, reached notes ops s /\ Inv s /\
             fold_left hist_step ops (import notes) = Ok (gs_graph s).
 Proof.
-  intros Hn Hd Ho. destruct (import_state_step notes Hn Hd) as (s0 & H0 & HI0 & Hg0).
-  destruct (run_updates_total ops Ho s0 HI0) as (s & H & HI & Hg & _).
+  intros Hd. destruct (import_state_step notes Hd) as (s0 & H0 & HI0 & Hg0).
+  destruct (run_updates_total ops s0 HI0) as (s & H & HI & Hg & _).
   exists s. split; [exists s0; auto|]. split; [exact HI|]. now rewrite Hg0.
 Qed.
 
 Theorem reached_Inv notes ops s :
-  plain_notes notes -> distinct_keys notes -> plain_ops ops -> reached notes ops s -> Inv s.
+  distinct_keys notes -> reached notes ops s -> Inv s.
 Proof.
-  intros Hn Hd Ho (s0 & H0 & H). destruct (import_state_step notes Hn Hd) as (s0' & H0' & HI0 & _).
+  intros Hd (s0 & H0 & H). destruct (import_state_step notes Hd) as (s0' & H0' & HI0 & _).
   rewrite H0 in H0'. injection H0' as <-.
-  destruct (run_updates_total ops Ho s0 HI0) as (s' & H' & HI & _). rewrite H in H'. now injection H' as <-.
+  destruct (run_updates_total ops s0 HI0) as (s' & H' & HI & _). rewrite H in H'. now injection H' as <-.
 Qed.
 
-(* B3.  For notes with pairwise distinct keys and plain blocks and EVERY history of plain updates
+(* B3.  For notes with pairwise distinct keys and EVERY history of updates
    (updates of existing notes, insertions of new ones, any metadata): the import and every step of
    the history return normally, the graph the index is threaded along is the one Library.update_key
    computes, and the getters answer exactly the live links of the final arena, for every key.
-   No premise about coverage or well-formedness is left. *)
-Theorem C04_index_no_history_plain notes ops :
-  plain_notes notes -> distinct_keys notes -> plain_ops ops ->
+   No premise about coverage, well-formedness or the shape of the blocks is left. *)
+Theorem C04_index_no_history_reached notes ops :
+  distinct_keys notes ->
   exists s0 s, import_state_v true notes = Ok s0 /\ run_updates true s0 ops = Ok s /\
     fold_left hist_step ops (import notes) = Ok (gs_graph s) /\
     forall k, block_refs_to s k = Ok (exact_refs (arena_of s) k) /\
               inline_refs_to s k = Ok (exact_inline (arena_of s) k).
 Proof.
-  intros Hn Hd Ho. destruct (reachable_total notes ops Hn Hd Ho) as (s & (s0 & H0 & H) & (_ & _ & HI) & Hg).
+  intros Hd. destruct (reachable_total notes ops Hd) as (s & (s0 & H0 & H) & (_ & _ & HI) & Hg).
   exists s0, s. split; [exact H0|]. split; [exact H|]. split; [exact Hg|]. now apply getters_exact.
 Qed.
 
 (* ... hence incremental = fresh start, whenever the two end in the same arena *)
-Corollary C04_index_history_independent_plain notes1 ops1 notes2 ops2 s1 s2 :
-  plain_notes notes1 -> distinct_keys notes1 -> plain_ops ops1 -> reached notes1 ops1 s1 ->
-  plain_notes notes2 -> distinct_keys notes2 -> plain_ops ops2 -> reached notes2 ops2 s2 ->
+Corollary C04_index_history_independent_reached notes1 ops1 notes2 ops2 s1 s2 :
+  distinct_keys notes1 -> reached notes1 ops1 s1 ->
+  distinct_keys notes2 -> reached notes2 ops2 s2 ->
   arena_of s1 = arena_of s2 ->
   forall k, block_refs_to s1 k = block_refs_to s2 k /\ inline_refs_to s1 k = inline_refs_to s2 k.
 Proof.
-  intros A1 B1 C1 R1 A2 B2 C2 R2 E k.
-  destruct (reached_Inv _ _ _ A1 B1 C1 R1) as (_ & _ & I1). destruct (reached_Inv _ _ _ A2 B2 C2 R2) as (_ & _ & I2).
+  intros B1 R1 B2 R2 E k.
+  destruct (reached_Inv _ _ _ B1 R1) as (_ & _ & I1). destruct (reached_Inv _ _ _ B2 R2) as (_ & _ & I2).
   destruct (getters_exact s1 I1 k) as [X1 Y1]. destruct (getters_exact s2 I2 k) as [X2 Y2].
   rewrite X1, X2, Y1, Y2, E. auto.
 Qed.
@@ -640,16 +635,16 @@ Qed.
 
 (* the same, said of the reached states *)
 Theorem reached_C05 notes ops s :
-  plain_notes notes -> distinct_keys notes -> plain_ops ops -> reached notes ops s ->
+  distinct_keys notes -> reached notes ops s ->
   wf_arena (arena_of s) /\ wf_arenab (arena_of s) = true /\
   forall root, root < length (arena_of s) ->
     exists ri, index_from true (arena_of s) root = Ok ri /\
       (forall k x, In x (raw_block_refs ri k) <-> below (arena_of s) root x /\ IndexFacts.is_ref (arena_of s) x k) /\
       (forall k x, In x (raw_inline_refs ri k) <-> below (arena_of s) root x /\ IndexFacts.is_inl (arena_of s) x k).
-Proof. intros A B C R. exact (Inv_C05 s (reached_Inv notes ops s A B C R)). Qed.
+Proof. intros B R. exact (Inv_C05 s (reached_Inv notes ops s B R)). Qed.
 
 Theorem reached_C18 notes ops s :
-  plain_notes notes -> distinct_keys notes -> plain_ops ops -> reached notes ops s ->
+  distinct_keys notes -> reached notes ops s ->
   bwd (arena_of s) /\ wf_arenab (arena_of s) = true /\ idx_in_range s /\
   (forall filt id, id < length (arena_of s) ->
      exists ps, paths_for_node filt (paths_fuel (arena_of s)) s id [] = Ok ps) /\
@@ -661,37 +656,38 @@ Theorem reached_C18 notes ops s :
           path_refs filt s key = Ok [] /\ parent_of (arena_of s) first = Ok (Some d) /\ doc s d k) /\
      (forall d h q, listed_note filt s d -> hchain s h q d ->
         exists pre, In (pre ++ q) ps /\ lastn (pre ++ q) = Some h)).
-Proof. intros A B C R. exact (Inv_C18 s (reached_Inv notes ops s A B C R)). Qed.
+Proof. intros B R. exact (Inv_C18 s (reached_Inv notes ops s B R)). Qed.
 
 Theorem reached_C17 notes ops s :
-  plain_notes notes -> distinct_keys notes -> plain_ops ops -> reached notes ops s ->
+  distinct_keys notes -> reached notes ops s ->
   collectable (gs_graph s) = true /\
   (forall key d, squash (gs_graph s) key d = squash_spec (gs_graph s) key d) /\
   (forall key root d, alookup key (gr_keys (gs_graph s)) = Some root ->
      exists doc, collect_key (gs_graph s) key = Ok doc /\
                  squash (gs_graph s) key d = Ok (expand (lk_graph (gs_graph s)) d doc)).
-Proof. intros A B C R. exact (Inv_C17 s (reached_Inv notes ops s A B C R)). Qed.
+Proof. intros B R. exact (Inv_C17 s (reached_Inv notes ops s B R)). Qed.
 
 (* C20 at the reached states, for completeness: the full executable invariant *)
 Theorem reached_C20 notes ops s :
-  plain_notes notes -> distinct_keys notes -> plain_ops ops -> reached notes ops s ->
+  distinct_keys notes -> reached notes ops s ->
   wf_b (arena_of s) (gr_keys (gs_graph s)) = true /\ tombs_cleanb (arena_of s) = true.
 Proof.
-  intros A B C R. destruct (reached_Inv _ _ _ A B C R) as ([Hwf _] & Ht & _).
+  intros B R. destruct (reached_Inv _ _ _ B R) as ([Hwf _] & Ht & _).
   split; [exact Hwf | now apply tombs_cleanb_spec].
 Qed.
 
 
 (* ================================================================================================ *)
-(* the premises are needed, and satisfiable                                                          *)
+(* the premises are satisfiable                                                                      *)
 (* ================================================================================================ *)
 
-(* without `plain` (a list item that starts with a list and holds further blocks, F-ITEMLEAD) the
-   conclusion of B3 fails: IndexHistory.index_history_orphan_refuted, restated with the classifier *)
-Theorem C04_plain_needed :
+(* the former witness of F-ITEMLEAD (a list item that starts with a list and holds further blocks;
+   before the builder repair the update orphaned the Reference node and the getters missed it:
+   IndexHistory.index_history_former_orphan): B3 covers it like any other history *)
+Theorem C04_former_orphan_exact :
   exists ops s0 s k, forallb (fun o : op => forallb plain_items (snd o)) ops = false /\
     import_state_v true [] = Ok s0 /\ run_updates true s0 ops = Ok s /\
-    block_refs_to s k = Ok [] /\ exact_refs (arena_of s) k = [3].
+    block_refs_to s k = Ok [5] /\ exact_refs (arena_of s) k = [5].
 Proof.
   exists [("d", None, orphan_note)]. eexists. eexists. exists "b".
   split; [reflexivity|]. split; [vm_compute; reflexivity|]. split; [vm_compute; reflexivity|].
@@ -721,11 +717,8 @@ Definition ex_ops : list op :=
    ("e", Some "m", [DHeader (0, 1) 1 [Str "E"]; DPara (1, 2) [Lk "a"]]);
    ("d/c", None, [DHeader (0, 1) 1 [Str "C again"]; DPara (1, 2) [Str "z"]])].
 
-Example ex_premises : plain_notes ex_notes /\ distinct_keys ex_notes /\ plain_ops ex_ops.
-Proof.
-  split; [repeat constructor|]. split; [|repeat constructor].
-  unfold distinct_keys. vm_compute. repeat constructor; cbn; intuition discriminate.
-Qed.
+Example ex_premises : distinct_keys ex_notes.
+Proof. unfold distinct_keys. vm_compute. repeat constructor; cbn; intuition discriminate. Qed.
 
 (* the theorems apply: the run succeeds; 37 slots, 19 of them tombstones; the raw index still holds
    the dead id 2 under "b", the getters answer exactly the live links; all five headings are listed
@@ -740,8 +733,7 @@ Example reachable_nonvacuous :
     collectable (gs_graph s) = true /\
     (exists t, squash (gs_graph s) "e" 3 = Ok t /\ Squash.tsize t = 12).
 Proof.
-  destruct ex_premises as (A & B & C).
-  destruct (reachable_total ex_notes ex_ops A B C) as (s & R & HI & _).
+  destruct (reachable_total ex_notes ex_ops ex_premises) as (s & R & HI & _).
   exists s. split; [exact R|]. split; [exact HI|].
   destruct R as (s0 & H0 & H).
   assert (E : (do s0 <- import_state_v true ex_notes; run_updates true s0 ex_ops) = Ok s) by (now rewrite H0).
@@ -754,8 +746,7 @@ Example reachable_nonvacuous_getters :
     forall k, block_refs_to s k = Ok (exact_refs (arena_of s) k) /\
               inline_refs_to s k = Ok (exact_inline (arena_of s) k).
 Proof.
-  destruct ex_premises as (A & B & C).
-  destruct (C04_index_no_history_plain ex_notes ex_ops A B C) as (s0 & s & H0 & H & _ & G). eauto.
+  destruct (C04_index_no_history_reached ex_notes ex_ops ex_premises) as (s0 & s & H0 & H & _ & G). eauto.
 Qed.
 
 Print Assumptions arena_ok_wf_arena.
@@ -767,14 +758,14 @@ Print Assumptions arena_ok_not_wf_refuted.
 Print Assumptions collect_total.
 Print Assumptions wf_b_collectable.
 Print Assumptions update_key_step.
-Print Assumptions covers_plain.
+Print Assumptions covers_update.
 Print Assumptions update_state_step.
 Print Assumptions import_state_step.
 Print Assumptions run_updates_total.
 Print Assumptions reachable_total.
 Print Assumptions reached_Inv.
-Print Assumptions C04_index_no_history_plain.
-Print Assumptions C04_index_history_independent_plain.
+Print Assumptions C04_index_no_history_reached.
+Print Assumptions C04_index_history_independent_reached.
 Print Assumptions graph_to_paths_total.
 Print Assumptions Inv_C05.
 Print Assumptions Inv_C18.
@@ -783,5 +774,5 @@ Print Assumptions reached_C05.
 Print Assumptions reached_C18.
 Print Assumptions reached_C17.
 Print Assumptions reached_C20.
-Print Assumptions C04_plain_needed.
+Print Assumptions C04_former_orphan_exact.
 Print Assumptions reachable_nonvacuous.
